@@ -153,6 +153,9 @@ class ParametricTransform:
         copy = shallow_copy(self)
         if callable(params):
             delattr(copy, "p")
+            if isinstance(params, torch.nn.Module):
+                # A tensor cannot be assigned to the name of a registered child module
+                delattr(copy, "params")
         if isinstance(params, Parameter) and not isinstance(arg, Parameter):
             copy.params = Parameter(arg, params.requires_grad)
         else:
@@ -280,6 +283,7 @@ class ParametricTransform:
             self.register_buffer("p", p, persistent=False)
             if other.params is None:
                 self.reset_parameters()
+        self.clear_buffers()
         return self
 
     def unlink(self: Union[TSpatialTransform, ParametricTransform]) -> TSpatialTransform:
@@ -288,9 +292,13 @@ class ParametricTransform:
 
     def unlink_(self: Union[TSpatialTransform, ParametricTransform]) -> TSpatialTransform:
         r"""Resets transformation parameters to ``None``."""
+        if isinstance(self.params, torch.nn.Module):
+            # A tensor cannot be assigned to the name of a registered child module
+            delattr(self, "params")
         self.params = None
         if hasattr(self, "p"):
             delattr(self, "p")
+        self.clear_buffers()
         return self
 
     def update(self: Union[TSpatialTransform, ParametricTransform]) -> TSpatialTransform:
